@@ -784,6 +784,12 @@ def n_print(eng, args, kwargs, st):
     return ok(None, st)
 
 
+def n_generic_visit(eng, args, kwargs, st):
+    """ast.NodeTransformer.generic_visit(self, node) on a leaf node (Name): returns the node itself"""
+    eng.assumed.add("ast.NodeTransformer.generic_visit returns the visited leaf node itself (library traversal trusted)")
+    return ok(args[1], st)
+
+
 def n_identity(eng, args, kwargs, st):
     return ok(args[0] if len(args) == 1 else tuple(args), st)
 
@@ -796,7 +802,7 @@ NATIVE = {
     operator.eq: n_eq, operator.contains: n_contains, functools.partial: n_partial,
     itertools.takewhile: n_takewhile, ast.literal_eval: n_literal_eval, abs: n_abs, max: n_max, min: n_min,
     zip: n_zip, str.casefold: n_casefold, itertools.chain.from_iterable: n_chain_from_iterable,
-    itertools.chain: n_chain, print: n_print,
+    itertools.chain: n_chain, print: n_print, ast.NodeTransformer.generic_visit: n_generic_visit,
     str.strip: n_str_method("strip"), str.lstrip: n_str_method("lstrip"), str.rstrip: n_str_method("rstrip"),
     str.startswith: n_str_method("startswith"), str.endswith: n_str_method("endswith"),
     str.lower: n_str_method("lower"),
